@@ -33,9 +33,12 @@ ASSUMPTIONS = ['exact arithmetic: all scalars/vectors/points are small integers 
                'on 40 odl classes, RealPart/ImagPart on complex spaces violate it for complex scalars)',
                'one scalar field per expression (real trees on rn, complex trees on cn); operators between real '
                'and complex spaces are only probed']
-TRUSTED = ['C04/Model.v build/eval/eval_ip as a transcription of the overloads and _call bodies (tied by the '
-           'structural + value correspondence on every run)',
+TRUSTED = ['C04/Model.v eval/eval_ip/ipp/oop/ip as a transcription of the _call bodies and the constructors\' checks '
+           '(tied by the structural + value correspondence on every run); the overload DISPATCH is regenerated '
+           'and proved equal to build',
            'translate/op_tables.py (Python ast of the classes\' __init__ -> Gen/OpTables.v), fail-closed',
+           'translate/op_dispatch.py (overload bodies -> decision trees, MRO owners, reflected-first relation) and '
+           'the meaning given to each test / returned expression in C04/Dispatch.v',
            'Python operator dispatch rule "reflected method of a proper subclass first" as modelled by subclass_radd']
 
 MAXMAG = 2 ** 40
@@ -714,6 +717,9 @@ def to_coq(ctx, t):
         return '(%s %s %s)' % (va[k], ctx.qs(t[2]), to_coq(ctx, t[1]))
     ac = {'addc': 'SAddC', 'subc': 'SSubC', 'mulc': 'SMulC', 'matmulc': 'SMulC', 'divc': 'SDivC'}
     if k in ac:
+        if ac[k] in ('SMulC', 'SDivC'):      # the Python TYPE of the scalar matters to Operator.__mul__
+            import numbers
+            return '(%s %s %s %s)' % (ac[k], to_coq(ctx, t[1]), ctx.q(t[2]), C.b(isinstance(t[2], numbers.Real)))
         return '(%s %s %s)' % (ac[k], to_coq(ctx, t[1]), ctx.q(t[2]))
     ca = {'cadd': 'SCAdd', 'csub': 'SCSub', 'cmul': 'SCMul'}
     if k in ca:
@@ -1091,13 +1097,17 @@ def measure_variant():
         vecsum = type(o).__name__ == 'OperatorVectorSum'
     except TypeError:
         vecsum = False
-    return frvec, vecsum
+    import numpy as np
+    c2 = odl.cn(2)
+    realonly = type(odl.MatrixOperator(np.eye(2, dtype=complex), domain=c2, range=c2) * 1j).__name__ \
+        == 'OperatorRightScalarMult'
+    return frvec, vecsum, realonly
 
 
 def correspondence(rng, tier):
-    frvec, vecsum = measure_variant()
-    prelude = ('Definition vt_now : variant := {| v_frvec_lin := %s; v_vecsum_field := %s |}.'
-               % (C.b(frvec), C.b(vecsum)))
+    frvec, vecsum, realonly = measure_variant()
+    prelude = ('Definition vt_now : variant := {| v_frvec_lin := %s; v_vecsum_field := %s; v_real_shortcut := %s |}.'
+               % (C.b(frvec), C.b(vecsum), C.b(realonly)))
     cs = C.CaseSet('real', ['Base.Vec', 'C04.Model', 'C04.Corr'], 'check_real', 'case Q', prelude=prelude)
     n = 900 if tier == 'quick' else 7500
     maxd = 4 if tier == 'quick' else 7
@@ -1642,9 +1652,23 @@ def _mixed_skel(t):
 
 def mixed_probes(rng, n):
     out = []
-    for i in range(n):
-        df, rf = rng.choice('RC'), rng.choice('RC')
-        t = _mixed_gen(rng, rng.randint(1, 3), df, rf)
+    L = lambda n_: ('leaf', n_)
+    fixed = [('mulc', ('mul', L('Emb'), L('Im')), 1 - 1j), ('mulc', ('mul', L('Emb'), L('Re')), 1j),
+             ('divc', ('mul', L('Emb'), L('Re')), 1j), ('mulc', ('mul', L('Ac'), ('mul', L('Emb'), L('Im'))), 2j),
+             ('mulc', L('Emb'), 1j), ('mulc', L('Re'), 1j), ('mulc', L('Im'), 1 - 1j), ('cmul', L('Re'), 1j),
+             ('cmul', L('Emb'), 1j), ('mulc', L('Ac'), 1j), ('mulc', L('Ac'), 2.0), ('mulc', L('Sc'), 1j),
+             ('mulc', L('Sr'), 1j), ('addc', L('Re'), 1j), ('addc', L('Emb'), 1j), ('mulc', ('mul', L('Re'), L('Ac')), 1j),
+             ('mul', L('Ar'), L('Ac')), ('mul', L('Ac'), L('Emb')), ('add', L('Re'), L('Im')), ('sub', L('Emb'), L('Ac'))]
+    for i in range(n + len(fixed)):
+        if i < len(fixed):
+            t = fixed[i]
+            try:
+                df = _mixed_type(t)[0]
+            except RefErr:
+                df = _mixed_type(t[1])[0] if t[0] not in ('mul', 'add', 'sub') else 'C'
+        else:
+            df, rf = rng.choice('RC'), rng.choice('RC')
+            t = _mixed_gen(rng, rng.randint(1, 3), df, rf)
         x = [complex(rng.randint(-2, 2), rng.randint(-2, 2) if df == 'C' else 0) for _ in range(2)]
         f = _mixed_min(t, x)
         if f is None:
@@ -1657,6 +1681,10 @@ def mixed_probes(rng, n):
         if res[0] == 'accepts-ill-typed' and ft[0] in ('mulc', 'divc'):
             # A * a with a complex a and a real domain: accepted when A is linear with a complex range
             key = 'mixed-field:complex-right-scalar-on-real-domain-accepted-for-linear'
+        if res[0] in ('value', 'value-inplace') and ft[0] in ('mulc', 'divc') and isinstance(ft[2], complex):
+            # A * a rewritten to a * A for an A that is flagged linear but only REAL-linear (it contains
+            # RealPart / ImagPart): wrong value for a complex a
+            key = 'mixed-field:complex-right-scalar-shortcut-on-real-linear-operator'
         rp = ("import sys\nsys.path.insert(0, %r)\nfrom harness import c04 as H\n"
               "ok, observed, expected = H.mixed_replay(%r, %r)\n" % (C.VERIF, ft, fx))
         out.append(C.Probe(False, key, '%s: %s on %s' % (res[0], res[1], _mixed_skel(ft)), rp))
